@@ -41,7 +41,10 @@ func embedIDL(g Generator, i thriftPackageImporter, m *compile.Module) error {
 
 	hash := sha1.Sum(m.Raw)
 	var includes []string
-	for _, v := range m.Includes {
+	// Import the included packages in a fixed order: when two of them want
+	// the same import name, the order decides which one gets it.
+	for _, name := range sortStringKeys(m.Includes) {
+		v := m.Includes[name]
 		importPath, err := i.Package(v.Module.ThriftPath)
 		if err != nil {
 			return wrapGenerateError("idl embedding", err)
